@@ -43,17 +43,22 @@ Record memory := mkMem { m_acc : N -> access;      (* page number -> access *)
 Definition can_read (a : access) : bool := match a with Inacc => false | _ => true end.
 Definition can_write (a : access) : bool := match a with RW => true | _ => false end.
 
-Fixpoint pages_ok (P : access -> bool) (acc : N -> access) (p : N) (n : nat) : bool :=
+(* forall i < n, f (p + i): binary recursion over the count, so that a range of 2^20 pages needs no large unary number *)
+Fixpoint iter_ok (f : N -> bool) (p : N) (n : positive) : bool :=
   match n with
-  | O => true
-  | S k => if P (acc p) then pages_ok P acc (N.succ p) k else false
+  | xH => f p
+  | xO n' => if iter_ok f p n' then iter_ok f (p + Npos n') n' else false
+  | xI n' => if f p then (if iter_ok f (p + 1) n' then iter_ok f (p + 1 + Npos n') n' else false) else false
   end.
 
 (* the whole range [o, o+l) lies below 2^32 and every page it touches satisfies P; the empty range always does *)
 Definition range_ok (P : access -> bool) (m : memory) (o l : N) : bool :=
   if l =? 0 then true
   else if (two32 <? l) || (two32 - l <? o) then false
-  else pages_ok P (m_acc m) (o / ZP) (N.to_nat ((o + l - 1) / ZP - o / ZP + 1)).
+  else match (o + l - 1) / ZP - o / ZP + 1 with
+       | N0 => true
+       | Npos n => iter_ok (fun q => P (m_acc m q)) (o / ZP) n
+       end.
 Definition readable := range_ok can_read.
 Definition writable := range_ok can_write.
 
